@@ -111,6 +111,8 @@ func (a *Emitter) Append(e *Emitter) {
 	}
 
 	a.address = e.address
+	// the clone may have been given its base address (SetBase before the first emission):
+	a.base = e.base
 	a.baseSet = e.baseSet
 	a.flagsTracker = e.flagsTracker
 
